@@ -3,6 +3,7 @@ import Proofs.KNBlocks
 import Proofs.KNC07Base
 import Proofs.KNC07Discharge
 import Proofs.KNSorters
+import Proofs.KNC07Chain
 /-!
 # C07 — Estimation result is independent of memory budget, block sizes and scheduling
 
@@ -365,6 +366,101 @@ theorem lmplz_indep_final {W : Type} [DecidableEq W] {Mem Sched Out : Type}
     lmplzOut I m₁ s₁ opts text = lmplzOut I m₂ s₂ opts text :=
   lmplz_indep_discharged2 I render opts hN text hash unk bos eos unkCapHash xOf hx h_enc hsp hinj hnz hmax
     h_sortImpl sorters h_stages h_sorters hk m₁ m₂ s₁ s₂
+
+/-! ## The single-chain part of `h_stages` discharged by C17 `chain_stream_transducer`
+
+Proofs in `Proofs/KNC07Chain.lean`; the stages as per-block state transformers in `Model/KNChainStages.lean`. -/
+
+section singlechain
+open KV.Vocab KV.Chain KV.KN.ChainStages KV.KN.Blocks KV.KN.Interp
+variable {W : Type} [DecidableEq W] {σ β γ : Type}
+
+/-- **A stage on a chain** (C17 `chain_stream_transducer`).  Let the source of a chain produce the
+record blocks `blocks` (any partition of its stream) and the worker run the per-block state
+transformer `step` from `init`.  For every number `b ≥ 1` of chain blocks, every chain length `m ≥ 2`
+and EVERY schedule (`Chain.Reach`: any finite interleaving of source, workers, recycler and the thread
+that called `Chain::Start` / `Chain::Wait`): when `Wait` has returned, the worker has handed on exactly
+the blocks `runBlocks step init blocks`, in order, each once, then one poison, and the next stage has
+received exactly that. -/
+theorem chain_stage_stream (cβ : BlockCode β) (cγ : BlockCode γ) (step : Stage σ β γ) (init : σ)
+    (blocks : List (List β)) {b m : Nat} {c : Chain} (hb : 0 < b) (hm : 2 ≤ m)
+    (hr : Chain.Reach (Chain.initT b m (blocks.map cβ.enc) (liftStage cβ cγ step init).toStageFn.tr) c)
+    (hfin : c.main = .finished) :
+    (valsOf (c.st 1).out).map cγ.dec = runBlocks step init blocks
+    ∧ (c.st 1).out = ((runBlocks step init blocks).map cγ.enc).map Item.val ++ [Item.poison]
+    ∧ (c.st 2).inp = (c.st 1).out :=
+  chain_stage_stream_pf cβ cγ step init blocks hb hm hr hfin
+
+/-- **`MergeRight` ∘ `PruneNGramStream` on an order's primary chain**: for every partition of the
+context-sorted stream `es` into blocks, with the sums stream from the adder chain (one entry per context,
+in order: `(ctxRuns es).map (addRight d)`) as the initial state, the concatenation of the blocks handed
+on is the stage function of `initialOrder` / `initialOrderWith` before the suffix sort. -/
+theorem mergeRight_partition (d : Disc) (es : List Emit) (blocks : List (List Emit)) (hb : blocks.flatten = es) :
+    (runBlocks (mrBlock d) ⟨(ctxRuns es).map (addRight d), none⟩ blocks).flatten =
+      ((ctxRuns es).flatMap (mergeRight d)).filter (·.keep) :=
+  mergeRight_partition_pf d es blocks hb
+
+/-- **the order-1 branch** (as `Model/KN.lean` has it: by the value of the word), over the repaired
+`PruneNGramStream`: for every partition of the unigram stream, with the single sums entry as the state -/
+theorem mergeRightUnigram_partition (iu : Bool) (d : Disc) (es : List Emit) (hne : es ≠ [])
+    (huni : ∀ e ∈ es, e.gram.tail = []) (blocks : List (List Emit)) (hb : blocks.flatten = es) :
+    (runBlocks (mrUnigramBlock iu d) (addRight d es) blocks).flatten =
+      ((ctxRuns es).flatMap (mergeRightUnigram iu d)).filter (·.keep) :=
+  mergeRightUnigram_partition_pf iu d es hne huni blocks hb
+
+/-- **every single chain of the pipeline delivers its stage function's stream**, for every block coding,
+number of chain blocks, chain length, upstream block partition and schedule (see `SingleChainsDeliver`) -/
+theorem single_chain_stages : SingleChainsDeliver := single_chain_stages_pf
+
+/-- **C07 with the single-chain part of `h_stages` discharged.**  As `lmplz_indep_final`, with `h_stages`
+replaced by `h_wiring`: *given* that every single chain delivers its stage function's stream
+(`SingleChainsDeliver`, proved: `single_chain_stages`), the part of the tool after the first sort computes
+`render (estimateFromWith (sorters m s) …)`.  `h_wiring` is what is still ASSUMED about the later stages;
+since its premise is a theorem it is logically no weaker than `h_stages` — its form records what a proof
+of it may use and what it has to supply, namely the plumbing BETWEEN chains, none of which is discharged
+here:
+* fan-out in step 2: `AdjustCounts::Run` reads the sorted order-`N` chain and writes the `N` chains of the
+  orders `1 … N` in one loop (the stateful multi-output stream function `adjustStream` + `collapse` of
+  Model/KN.lean, C05 `adjust_stream_eq`); only its `CollapseStream` iterator is a single-chain stage (2.);
+* the counts-of-counts → discounts hand-over (`discounts` after the last block of step 2: a barrier);
+* fan-out in step 3: `SortAndReadTwice` delivers the context-sorted stream of an order twice, to the adder
+  chain (`AddRight`, source of chain 1.) and to the primary chain (3./4.); that both readers see the same
+  stream is C16 (`h_sorters`: the sort's output is a function of its input) plus the file being read twice;
+* fan-in in step 3: the sums stream of the adder chain is consumed by `MergeRight` record by record
+  (`util::stream::Stream summed(from_adder_)`), interleaved with the primary chain: here the whole sums
+  stream sits in the initial state of the worker (3.), i.e. "the second chain's content is
+  `(ctxRuns es).map (addRight d)` and arrives in order" is part of `h_wiring`, as is `AddRight` computing
+  `addRight d` per context (a single-chain source, not a worker);
+* fan-in in step 4: `Interpolate` / `JointOrder` read the `N` suffix-sorted chains in lock step
+  (`joinLower`, `interpOrder`, `interpAll`) together with the `N−1` gamma files written via 1.
+  (`takeBackoffsSeq` / `takeBackoffsHash`);
+* the external sorts between the steps (`sorters m s n`, assumed correct in `h_sorters`, which C16 proves
+  of `extSort` / `codeSort`), `--renumber` (a stateless per-record map, not in the model) and the printer
+  (`render`).
+Everything else is as in `lmplz_indep_final`. -/
+theorem lmplz_indep_final2 {Mem Sched Out : Type}
+    (I : Impl Mem Sched (List (List W)) Out) (render : Except Err Model → Out) (opts : Opts)
+    (hN : 1 ≤ opts.cfg.order) (text : List (List W))
+    (hash : W → Nat) (unk bos eos : W) (unkCapHash : Nat) (xOf : Mem → Nat)
+    (hx : ∀ m, 1 ≤ xOf m ∧ xOf m ≤ 2^63)
+    (h_enc : ∀ m t, I.encode m t = growableIds hash unk bos eos unkCapHash (xOf m) t)
+    (hsp : unk ≠ bos ∧ unk ≠ eos ∧ bos ≠ eos)
+    (hinj : InjOn hash ([unk, bos, eos] ++ text.flatten))
+    (hnz : ∀ w, w ∈ [unk, bos, eos] ++ text.flatten → hash w ≠ 0)
+    (hmax : (specEncode unk bos eos text).2 < kWordIndexMax)
+    (h_sortImpl : ∀ m s blocks, ∃ pick plan,
+      KV.Sort.extSort KV.Sort.suffixLt KV.Sort.combineCounts pick (toBlocks blocks) plan =
+        some ((I.sortCombine m s blocks).map toRec))
+    (sorters : Mem → Sched → Nat → Sorters)
+    (h_wiring : SingleChainsDeliver → ∀ m s full, I.post m s opts full =
+      render (estimateFromWith (sorters m s) opts.cfg opts.pruneVocab opts.fallback full))
+    (h_sorters : ∀ m s n, SortsOK (sorters m s n))
+    (hk : opts.cfg.keepSpecials = true)
+    (m₁ m₂ : Mem) (s₁ s₂ : Sched) :
+    lmplzOut I m₁ s₁ opts text = lmplzOut I m₂ s₂ opts text :=
+  lmplz_indep_final2_pf I render opts hN text hash unk bos eos unkCapHash xOf hx h_enc hsp hinj hnz hmax h_sortImpl sorters h_wiring h_sorters hk m₁ m₂ s₁ s₂
+
+end singlechain
 
 /-! ## chain block boundaries inside the pipeline: the two compacting iterators -/
 
